@@ -305,6 +305,26 @@ def group_identities(spec, g, recs, dets):
     last = len(grp["steps"]) - 1
     tl = grp["steps"][last]
     ix = lambda q: [i for i, c in enumerate(COMP) if c in q]
+    # independent numpy evaluation of the SPATIAL record of the group's first member (what the reductions refer to)
+    dt, T = spec["_dt"], spec["_T"]
+    for s_i, st in enumerate(recs[0]["steps"]):
+        E, H, t = st["E"], st["H"], st["t"]
+        if kind == "field" and not close(st["after"]["fields"][t], np.concatenate([E, H])):
+            return "spatial FieldDetector record is not the stack (Ex,Ey,Ez,Hx,Hy,Hz) of its inputs"
+        if kind == "energy":
+            want = (0.5 * E * E / st["ie"]).sum(axis=0) + (0.5 * H * H / st["im"] * np.ones_like(H)).sum(axis=0)
+            if not close(st["after"]["energy"][t], want):
+                return "spatial EnergyDetector record != 1/2 sum_c (eps_c E_c^2 + mu_c H_c^2)"
+        if kind == "poynt" and not close(st["after"]["poynting_flux"][t], np.cross(E, H, axis=0)):
+            return "spatial all-component Poynting record != E x H"
+    if kind in ("phasor", "cphasor"):
+        pm = 0 if kind == "phasor" else 2
+        acc = 0.0
+        for st in recs[pm]["steps"]:
+            ph = np.asarray(phase(mem[pm]["opts"], st["t"], dt, T))
+            acc = acc + np.concatenate([st["E"], st["H"]])[None] * ph[:, None, None, None, None]
+        if not close(recs[pm]["final"]["phasor"][0], acc):
+            return "spatial PhasorDetector state != sum over recorded steps of EH * exp(i w t) * scale"
     if kind == "field":
         S, R = recs[0]["final"]["fields"], recs[1]["final"]["fields"]
         for t in grp["steps"]:
@@ -374,6 +394,10 @@ def group_identities(spec, g, recs, dets):
             return f"closed-surface phasor net flux {recs[0]['net']} != signed sum of the six face fluxes {tot}"
         if not close(recs[1]["net"], -recs[0]["net"]):
             return "inward / inverse-time closed-surface phasor flux inconsistent with the outward forward one"
+        sign = -1.0 if mem[1]["opts"]["inverse"] else 1.0
+        for key in recs[0]["final"]:
+            if not close(recs[1]["final"][key], sign * recs[0]["final"][key]):
+                return f"closed-surface phasor detector with inverse={mem[1]['opts']['inverse']}: stored face {key} is not {sign:+.0f} x the forward one"
     return None
 
 
@@ -430,10 +454,10 @@ def gen_group(rng, kind, shape, T):
             g["members"] = [{"kind": "closed", "opts": {"orientation": "outward", "axes": None}},
                             {"kind": "closed", "opts": {"orientation": "inward", "axes": sub}}]
         else:
-            g["steps"] = sorted(set(rng.randint(0, T - 1) for _ in range(3)))
+            g["steps"] = sorted(set(rng.randint(0, T - 1) for _ in range(2)))
             base = {"wavelengths": wl, "scaling": scaling}
             g["members"] = [{"kind": "cphasor", "opts": dict(base, orientation="outward", axes=None, inverse=False)},
-                            {"kind": "cphasor", "opts": dict(base, orientation="inward", axes=None, inverse=False)},
+                            {"kind": "cphasor", "opts": dict(base, orientation="inward", axes=None, inverse=rng.chance(0.5))},
                             {"kind": "phasor", "opts": dict(base, reduce=False, components=list(COMP), inverse=False)}]
         for a in active:
             for side in (0, 1):
@@ -447,7 +471,7 @@ def gen_group(rng, kind, shape, T):
                                                                                     fixed_axis=a, keep_all=False)})
     elif kind == "phasor":
         g["box"] = rand_box(rng, shape)
-        g["steps"] = sorted(set(rng.randint(0, T - 1) for _ in range(3)))
+        g["steps"] = sorted(set(rng.randint(0, T - 1) for _ in range(2)))
         base = {"wavelengths": wl, "scaling": scaling}
         sub = subset(rng)
         g["members"] = [{"kind": "phasor", "opts": dict(base, reduce=False, components=list(COMP), inverse=False)},
@@ -474,6 +498,7 @@ def eval_scene(ctx, spec, with_model=True):
     """returns list of (group index, detail) property failures; records K comparisons in ctx when with_model"""
     from .common import h2fs
     dets, dt, T = build(spec)
+    spec["_dt"], spec["_T"] = dt, T
     fails = []
     lines, expect, labels = [], [], []
     for g, grp in enumerate(spec["groups"]):
@@ -506,7 +531,7 @@ def eval_scene(ctx, spec, with_model=True):
 
 
 def one_group(spec, g):
-    s = dict(spec)
+    s = {k: v for k, v in spec.items() if not k.startswith("_")}
     s["groups"] = [spec["groups"][g]]
     return s
 
@@ -517,7 +542,7 @@ def run(ctx):
     if ctx.thorough:
         scenes = [("nonuniform", per), ("uniform", per), ("nonuniform", per), ("direct", 2)] * 3
     for grid, pk in scenes:
-        kinds = KINDS if grid != "direct" else ["field", "energy", "poynt", "closed", "phasor", "cphasor"]
+        kinds = KINDS if (grid != "direct" or ctx.thorough) else ["field", "energy", "poynt", "closed", "cphasor"]
         spec = gen_scene(ctx.rng, grid, pk, kinds)
         fails = eval_scene(ctx, spec)
         if fails:
@@ -552,6 +577,7 @@ def search(ctx, hints):
             spec = gen_scene(ctx.rng.fork(), grid, 1)
             try:
                 dets, dt, T = build(spec)
+                spec["_dt"], spec["_T"] = dt, T
             except Exception as e:
                 ctx.violation(spec, f"implementation raised {type(e).__name__}: {str(e)[:300]}")
                 return
